@@ -6,7 +6,8 @@
 From Coq Require Import ZArith List Bool Reals.
 From Flocq Require Import IEEE754.BinarySingleNaN.
 From F8 Require Import C08.NumInt C08.NumFloat C08.Spec_C08 C08.NumIntProofs C08.NumFloatProofs
-  C08.NumFloatShapeProofs C08.NumFloatRoundProofs C08.NumFloatOracleProofs.
+  C08.NumFloatShapeProofs C08.NumFloatRoundProofs C08.NumFloatOracleProofs
+  C08.NumFloatTextProofs.
 Import ListNotations.
 Local Open Scope Z_scope.
 
@@ -78,16 +79,32 @@ Print Assumptions c08_atoi_top_overflow_orig_refuted.
 
 (* ================================================================================== doubles *)
 
-(* The general law is FALSE for the faithful model; four independent counterexamples, each inside
+(* The general law is FALSE for the faithful model; independent counterexamples, each inside
    the property's domain (finite, |v| < 2^31, precision 0..9) and rejected by the oracle. *)
 
-(* 0.95 at precision 1 -> "0.1" (tie branch without roll-over) *)
-Theorem c08_dtoa_rollover_refuted :
+(* BEFORE a6c4c45 (dtoa_stage_orig / modp_dtoa_orig): 0.95 at precision 1 left the rounding stage
+   with frac = 10 = 10^p and was printed as "0.1"; the repaired stage rolls over (whole 1, frac 0)
+   and prints "1.0". *)
+Theorem c08_dtoa_rollover_orig_refuted :
   let v := f64_of_bits 0x3FEE666666666666 in
-  c08_in_domain v 1 = true /\ fst (float_roundtrip v 1) = DT_text [48; 46; 49] /\
-  c08_render_ok v 1 [48; 46; 49] = false /\ roundtrip_ok v 1 = false.
-Proof. exact dtoa_rollover_refuted_lemma. Qed.
-Print Assumptions c08_dtoa_rollover_refuted.
+  c08_in_domain v 1 = true /\
+  option_map (fun st => (ds_whole st, ds_frac st)) (dtoa_stage_orig v 1) = Some (0, 10) /\
+  modp_dtoa_orig v 1 = DT_text [48; 46; 49] /\
+  option_map (fun st => (ds_whole st, ds_frac st)) (dtoa_stage v 1) = Some (1, 0) /\
+  modp_dtoa v 1 = DT_text [49; 46; 48].
+Proof. exact dtoa_rollover_orig_refuted_lemma. Qed.
+Print Assumptions c08_dtoa_rollover_orig_refuted.
+
+(* ... "1.0" is still not the correctly rounded decimal of the double 0.94999999999999995559
+   ("0.9"): 0.95 * 10 rounds to 9.5 exactly, a spurious tie -- the double-rounding defect, now off by
+   one unit in the last place instead of printing a different number. *)
+Theorem c08_dtoa_inexact_half_nines_refuted :
+  let v := f64_of_bits 0x3FEE666666666666 in
+  c08_in_domain v 1 = true /\ fst (float_roundtrip v 1) = DT_text [49; 46; 48] /\
+  c08_render_ok v 1 [49; 46; 48] = false /\ c08_render_ok v 1 [48; 46; 57] = true /\
+  roundtrip_ok v 1 = false.
+Proof. exact dtoa_inexact_half_nines_refuted_lemma. Qed.
+Print Assumptions c08_dtoa_inexact_half_nines_refuted.
 
 (* 0.45 at precision 1 -> "0.4" although "0.5" is the correct rounding (double rounding) *)
 Theorem c08_dtoa_inexact_half_refuted :
@@ -163,8 +180,8 @@ Print Assumptions c08_dtoa_text_within_threshold.
 (* When is the rounding right?  Precision 1..9: whenever the tie test of the rounding stage is false
    (the computed diff = tmp - frac is not exactly 0.5), whole * 10^p + frac -- the number the digit
    loops then print -- is THE integer nearest to |v| * 10^p (distance < 1/2): the rendering is
-   correctly rounded.  Both rendering defects (roll-over, double rounding) need diff == 0.5; the
-   finding classifiers are the negation of this hypothesis plus the narrower sub-condition. *)
+   correctly rounded.  The rendering defect that remains (double rounding onto an exact half) needs
+   diff == 0.5; its classifier is the negation of this hypothesis plus narrower sub-conditions. *)
 Theorem c08_dtoa_nearest_partial : forall v p, is_finite v = true -> 1 <= p <= 9 ->
   match dtoa_stage v p with
   | None => True
@@ -173,6 +190,40 @@ Theorem c08_dtoa_nearest_partial : forall v p, is_finite v = true -> 1 <= p <= 9
   end.
 Proof. exact stage_nearest_lemma. Qed.
 Print Assumptions c08_dtoa_nearest_partial.
+
+(* Since a6c4c45 the stage's frac is always below 10^p, so the TEXT denotes the stage's number,
+   unconditionally (before the repair this needed "no roll-over in the tie branch"): inside the
+   threshold, at (clamped) precision p >= 1, the text is  [-] digits(whole) . fd  with 1..p fraction
+   digits fd whose value, padded to p places, is exactly frac. *)
+Theorem c08_dtoa_text_value : forall v p0, is_finite v = true ->
+  flt thres_max (if flt v fzero then fneg v else v) = false -> 1 <= clamp_prec p0 ->
+  exists st fd,
+    dtoa_stage v (clamp_prec p0) = Some st /\
+    ds_value st = (if flt v fzero then fneg v else v) /\
+    ds_whole0 st <= 2147483647 /\ 0 <= ds_whole st /\
+    modp_dtoa v p0 = DT_text ((if ds_neg st then [45] else []) ++ dec_digits dec_fuel (ds_whole st) ++ 46 :: fd) /\
+    Forall (fun c => 48 <= c <= 57) fd /\ 1 <= Z.of_nat (length fd) <= clamp_prec p0 /\
+    digits_value fd * 10 ^ (clamp_prec p0 - Z.of_nat (length fd)) = ds_frac st.
+Proof. exact dtoa_text_value_lemma. Qed.
+Print Assumptions c08_dtoa_text_value.
+
+(* THE RENDERING CLAUSE, partial: precision 1..9, |v| <= 2^31-1; whenever the tie test of the rounding
+   stage is false (computed diff <> 0.5) the text is the correctly rounded decimal: the number it
+   denotes, times 10^p, is the integer nearest to |v| * 10^p.  The one remaining rendering defect
+   (C08-dtoa-inexact-half) lives entirely in the negation of that hypothesis. *)
+Theorem c08_dtoa_correct_partial : forall v p, is_finite v = true -> 1 <= p <= 9 ->
+  flt thres_max (if flt v fzero then fneg v else v) = false ->
+  match dtoa_stage v p with
+  | None => False
+  | Some st =>
+    feq (ds_diff st) fhalf = false ->
+    exists fd, modp_dtoa v p = DT_text ((if ds_neg st then [45] else []) ++ dec_digits dec_fuel (ds_whole st) ++ 46 :: fd) /\
+               Forall (fun c => 48 <= c <= 57) fd /\ 1 <= Z.of_nat (length fd) <= p /\
+               (Rabs (B2R (if flt v fzero then fneg v else v) * IZR (10 ^ p) -
+                      IZR (ds_whole st * 10 ^ p + digits_value fd * 10 ^ (p - Z.of_nat (length fd)))) < / 2)%R
+  end.
+Proof. exact dtoa_correct_partial_lemma. Qed.
+Print Assumptions c08_dtoa_correct_partial.
 
 (* Precision 0 is ALWAYS right inside the threshold: the text is [-]N where N is the integer
    nearest to |v|, and in case of a tie the even one (round half to even, like printf). *)
